@@ -202,3 +202,37 @@ Theorem C19_json_roundtrip_any : forall kvs,
   kvs <> [] -> forallb kv_valid kvs = true -> json_read_object (json_object kvs) = Some kvs.
 Proof. exact json_object_roundtrip. Qed.
 Print Assumptions C19_json_roundtrip_any.
+
+(* ---- one exception object called several times (object state: a successful prepare() stores
+   body, content type and charset; later prepare() calls are no-ops) *)
+(* Every response, at any point of any sequence of calls with any environs and negotiation
+   results, is -- status, content type, charset and body together -- exactly the specified
+   single-call rendering for one of the calls made so far: a content type never labels a body
+   rendered for another form, and the body obeys the escaping rule of its form. *)
+Theorem C19_history_consistent : forall i l k o,
+  nth_error (model_calls i l) k = Some (Some (Ok o)) ->
+  exists j s, (j <= k)%nat /\ nth_error l j = Some s /\ spec (with_call i s) = Some (Ok o).
+Proof. exact history_consistent. Qed.
+Print Assumptions C19_history_consistent.
+
+(* the executable form of the same statement, used to judge observed histories *)
+Theorem C19_history_check : forall i l, history_ok (model_calls i l) (spec_singles i l) = true.
+Proof. exact history_consistent_b. Qed.
+Print Assumptions C19_history_check.
+
+Theorem C19_history_check_sound : forall rs seen singles,
+  history_ok_from seen rs singles = true ->
+  forall k o, nth_error rs k = Some (Some (Ok o)) ->
+    In (Some (Ok o)) seen \/ exists j, (j <= k)%nat /\ nth_error singles j = Some (Some (Ok o)).
+Proof. exact history_ok_sound. Qed.
+Print Assumptions C19_history_check_sound.
+
+(* the first call is an ordinary rendering; once a non-empty body is stored every call repeats it *)
+Theorem C19_history_first : forall i s r,
+  model_calls i (s :: r) = spec (with_call i s) :: calls spec_policy i (stored (spec (with_call i s))) r.
+Proof. exact history_first. Qed.
+Print Assumptions C19_history_first.
+
+Theorem C19_history_sticky : forall P i o l, calls P i (Some o) l = map (fun _ => Some (Ok o)) l.
+Proof. exact calls_sticky. Qed.
+Print Assumptions C19_history_sticky.
